@@ -27,6 +27,7 @@ type C04Pub struct {
 	// Expired (with Dead): the context is dead because its deadline has passed (Err() is DeadlineExceeded, not Canceled)
 	Expired bool `json:"expired,omitempty"`
 	Bg   bool `json:"bg,omitempty"`   // use Publish (background context) instead of PublishContext
+	Any  bool `json:"any,omitempty"`  // published through an interface-typed value (Publish[any]): same event, dynamic-type dispatch
 	Mid  bool `json:"mid,omitempty"`  // (only with a canceller) the canceller cancels this publish's context before any other handler's turn
 }
 
@@ -91,6 +92,7 @@ func genC04(rt *rapid.T) core.Scenario {
 				ID:   id*6 + rapid.IntRange(0, 5).Draw(rt, "idRes"), // unique, residue free for the filters
 				Dead: rapid.IntRange(0, 2).Draw(rt, "dead") == 2,
 				Bg:   rapid.Bool().Draw(rt, "bg"),
+				Any:  rapid.IntRange(0, 3).Draw(rt, "any") == 3,
 			})
 			if l[len(l)-1].Dead {
 				l[len(l)-1].Expired = rapid.Bool().Draw(rt, "expired")
@@ -205,6 +207,8 @@ func (sc *C04Scenario) Execute(t *testing.T) *core.Outcome {
 						ctx, cancel := context.WithCancel(context.Background())
 						cancel()
 						allTypes[p.Type].Pub(w, ctx, p.ID)
+					case p.Any:
+						allTypes[p.Type].PubAny(w, context.Background(), p.ID)
 					case p.Bg:
 						allTypes[p.Type].Pub(w, nil, p.ID)
 					default:
